@@ -42,8 +42,8 @@ def c13(tier):
     def machine_check(verdict, sessions, wd):
         # the register trace of a sliced run must be the trace of the model, which has no slices: a slice boundary
         # that loses or alters machine state shows at the first instruction after it (spec/Machine.tla)
-        mcov.update(mach.run(verdict, wd, [('cont', 12 if q else 500, ['budget=1']), ('cont', 12 if q else 500, ['budget=37']),
-                                           ('lang', 12 if q else 500, ['budget=5'])], vlib.seed()))
+        mcov.update(mach.run(verdict, wd, [('cont', 12 if q else 200, ['budget=1']), ('cont', 12 if q else 200, ['budget=37']),
+                                           ('lang', 12 if q else 200, ['budget=5'])], vlib.seed()))
 
     return props.cek_property(
         'C13', tier, plan, relevant,
